@@ -137,4 +137,40 @@ CLAIMS = {
         "(the GIL is not relied on). Trusted: CPython semantics of class attributes / default arguments.",
         "technique": "effect / ownership audit over the resolved package (who may mutate what), ordering by dominance in PlyLexer.__new__",
     },
+    "C01": {
+        "level": "Necessary structural conditions, each decided on all paths: dispatch table vs. lexer vocabulary and handler reachability "
+        "(79), fold of the simple visitor (44), payload class at every callback site (23), scope kind at every callback/constructor/"
+        "annotated parameter (33), constructor keyword and **props key-set conformance to the dataclass field tables (66), parameter "
+        "index of abbreviated templates, per-iteration flag re-initialisation and namespace walk, and the whole token-type vocabulary the "
+        "parser names (215 strings) against what the lexer can deliver.",
+        "note": "Decides 'in the scope where it was written', 'every reported object conforms to the published dataclass field types' and "
+        "that each declaration kind has a route from token to callback to the right list. NOT decided: that names, types, specifiers, "
+        "defaults and flags equal the source - runtime values of a 2.8 kLOC recursive descent for which static analysis has no oracle.",
+        "technique": "table agreement (VOCAB) between lexer model, parser literals, dataclass field tables and protocol annotations; kind-set dataflow; reaching definitions",
+    },
+    "C02": {
+        "level": "Restore-on-all-exits of the swapped token source and the trial-parse region rules (failures swallowed there, nothing "
+        "emitted, placeholder confined, whole-argument condition); conformance of all 7 type-node constructions and cv stores to the "
+        "declared Unions by kind-set dataflow; flag pairing (trailing return, vararg, calling convention); keyword partition (82 "
+        "keywords); bottom-up construction (no re-linking of child fields), mode forwarding in recursive calls, per-iteration flags.",
+        "note": "NOT decided: that the nesting order is the inside-out order for every declarator and that the reported name is the core "
+        "identifier - value-level facts about token push-back and recursion. Trusted: Union annotations in types.py.",
+        "technique": "acquire/release pairing over try/finally CFG copies; kind-set dataflow with isinstance narrowing; ownership of child links; sibling agreement of recursive calls",
+    },
+    "C18": {
+        "level": "Forward slices from the three option reads: one read site for convert_void_to_zero_params through which every parameter "
+        "list passes, effect limited to emptying the list under the lone-unnamed-void test; verbose read only for the debug_print choice "
+        "and the top-of-handler re-raise, debug_print bodies and call sites effect-free; preprocessor hook called once with the "
+        "unmodified (filename, content), its unmodified result the only content that is lexed, file read exactly when content is None.",
+        "note": "Nothing material left undecided.",
+        "technique": "def-use / control-dependence slicing from option reads; must-pass-through at call sites",
+    },
+    "C20": {
+        "level": "Def-use chains through the entry points: every parameter of parse_file/parse_string in the backward slice of the parser "
+        "construction, encoding reaching open() and the stdin decode, default literals agreeing (library and CLI), fsdecode-first, "
+        "identical pipeline in both entry points, JSON dump = asdict of the unmodified result, nondefault_repr's container coverage "
+        "against the closure of ParsedData's annotations and its exact skip conditions (control dependences of the emitting statement).",
+        "note": "Not decided: console-encoding behaviour for non-ASCII output. Two genuine defects were repaired (encoding not passed on; stdin not decoded with it).",
+        "technique": "backward slicing, reaching definitions, control-dependence comparison, annotation-closure exhaustiveness",
+    },
 }
